@@ -3,6 +3,7 @@ pub mod bits;
 pub mod dec;
 pub mod gen;
 pub mod gen_pic;
+pub mod hist;
 pub mod model;
 pub mod props;
 pub mod runner;
